@@ -12,7 +12,10 @@ let parse_in (ins : string list) : listener * tunnel * inner list =
       let req s =
         let f = (match s.[0] with 'o' -> FOrigin | 'a' -> FAbsHttp | 's' -> FAbsHttps | 'n' -> FNoHost
                                   | _ -> raise (Bad s)) in
-        { i_form = f; i_hijack = (String.length s = 2 && s.[1] = 'H') } in
+        let rest = String.sub s 1 (String.length s - 1) in
+        let has c = String.contains rest c in
+        { i_form = f; i_hijack = has 'H';
+          i_mut = (if has 'I' then MInsecure else if has 'M' then MSecure else if has 'V' then MValues else MNone) } in
       (l', t', List.map req rest)
   | _ -> raise (Bad "short-input")
 
